@@ -3,6 +3,7 @@
 package p_client
 
 import (
+	"bytes"
 	"encoding/json"
 	"fmt"
 	"sync"
@@ -213,10 +214,50 @@ func runC12(c C12Case) (res c12result) {
 		handled[int(t)]++
 		return fix.WaitHandled(svcID, int(t), handled[int(t)], 5*time.Second)
 	}
+	// what the completion callbacks were handed: the request message must be the caller's own
+	// request, and stay what it was (the application may keep it)
+	var keptMu sync.Mutex
+	kept := map[int]message.Message{}
+	snap := map[int][]byte{}
+	wrong := map[int]string{}
+	encOf := func(m message.Message) []byte {
+		b := make([]byte, m.Len())
+		n, err := m.Encode(b)
+		if err != nil {
+			return []byte("encode error: " + err.Error())
+		}
+		return b[:n]
+	}
 	onComplete := func(i int) service.OnCompleteFunc {
 		return func(msg, ack message.Message, err error) error {
 			if !termSent[i].Load() && c.Reqs[i].Kind != "pub0" {
 				early[i].Store(true)
+			}
+			if msg != nil && c.Reqs[i].Kind != "ping" {
+				keptMu.Lock()
+				mine := ""
+				switch m := msg.(type) {
+				case *message.PublishMessage:
+					mine = string(m.Topic())
+					if mine == fmt.Sprintf("c12/t/%d", i) {
+						mine = ""
+					}
+				case *message.SubscribeMessage:
+					if len(m.Topics()) == 0 || string(m.Topics()[0]) != fmt.Sprintf("c12/f/%d", i) {
+						mine = fmt.Sprintf("%q", m.Topics())
+					}
+				case *message.UnsubscribeMessage:
+					if len(m.Topics()) == 0 || string(m.Topics()[0]) != fmt.Sprintf("c12/f/%d", i) {
+						mine = fmt.Sprintf("%q", m.Topics())
+					}
+				}
+				if mine != "" && wrong[i] == "" {
+					wrong[i] = mine
+				}
+				if _, dup := kept[i]; !dup {
+					kept[i], snap[i] = msg, encOf(msg)
+				}
+				keptMu.Unlock()
 			}
 			fired[i].Add(1)
 			if c.Reqs[i].CbErr {
@@ -507,6 +548,20 @@ func runC12(c C12Case) (res c12result) {
 		}
 		return c12result{Incon: "flush round trip failed: " + err.Error()}
 	}
+	keptMu.Lock()
+	for i := range c.Reqs {
+		if w := wrong[i]; w != "" {
+			keptMu.Unlock()
+			return c12result{Fail: fmt.Sprintf("request %d (%s): its completion callback was handed another request's message (%s)", i, c.Reqs[i].Kind, w)}
+		}
+		if m, ok := kept[i]; ok {
+			if now := encOf(m); !bytes.Equal(now, snap[i]) {
+				keptMu.Unlock()
+				return c12result{Fail: fmt.Sprintf("request %d (%s): the request message its completion callback was handed has changed since (%x, was %x): it refers to memory the library went on using for later requests", i, c.Reqs[i].Kind, clipBytes(now), clipBytes(snap[i]))}
+			}
+		}
+	}
+	keptMu.Unlock()
 	for i, r := range c.Reqs {
 		if early[i].Load() {
 			return c12result{Fail: fmt.Sprintf("request %d (%s): the completion callback fired before the terminal acknowledgement was sent", i, r.Kind)}
@@ -664,3 +719,10 @@ func minInt(a, b int) int {
 }
 
 var _ = census.GID
+
+func clipBytes(b []byte) []byte {
+	if len(b) > 32 {
+		return b[:32]
+	}
+	return b
+}
